@@ -4,3 +4,6 @@ pub mod fault_alloc;
 /// Panic payload used by the controller to unwind a run deliberately
 #[derive(Debug)]
 pub struct Abort(pub &'static str);
+pub mod vmctl;
+pub mod obs;
+pub mod vmrun;
